@@ -1402,10 +1402,16 @@ func exchangeServiceInfoRound(ctx context.Context, transport Transport, mtu uint
 			break
 		}
 		if errors.Is(err, serviceinfo.ErrSizeTooSmall) {
-			msg.IsMoreServiceInfo = true
 			if maxRead == mtu {
-				msg.IsMoreServiceInfo = false // likely due to a yield... but also could be a malicious large key?
+				// Nothing has been put into this message yet, so there is
+				// nothing a forced message break (yield) would separate the
+				// next service info from. Keep reading instead of ending the
+				// round, which would drop whatever the module wrote after the
+				// yield. A key too large for any message is reported as an
+				// error by the next ReadChunk.
+				continue
 			}
+			msg.IsMoreServiceInfo = true
 			break
 		}
 		if err != nil {
